@@ -135,6 +135,22 @@ def _gen_array(rng, vast=False):
     opts = {"disallow_adjacent": dis, "symmetry": symmetry, "use_move": use_move, "initial": None}
     if rng.random() < 0.45:
         opts["initial"] = _gen_initial_grid(rng, h, w, choice, default, dis, symmetry)
+    r2 = pyrandom.Random(rng.random())  # one draw: the rest of the scenario stream is unchanged
+    if opts["initial"] is not None and dis and not use_move and not vast and r2.random() < 0.3:
+        # a start grid in which two clues already touch (legal input; value-setting updates can never produce it)
+        g = opts["initial"]
+        offs = _offsets(dis)
+        nd = [c for c in choice if c != default]
+        cells = [(y, x) for y in range(h) for x in range(w) if g[y][x] != default]
+        r2.shuffle(cells)
+        for y, x in cells:
+            cand = [(y + dy, x + dx) for dy, dx in offs if 0 <= y + dy < h and 0 <= x + dx < w and g[y + dy][x + dx] == default]
+            if cand:
+                yy, xx = r2.choice(cand)
+                g[yy][xx] = r2.choice(nd)
+                if symmetry:
+                    g[h - 1 - yy][w - 1 - xx] = r2.choice(nd) if (h - 1 - yy, w - 1 - xx) != (yy, xx) else g[yy][xx]
+                break
     return ["array", h, w, choice, default, opts]
 
 
@@ -144,6 +160,19 @@ def _offsets(dis):
     if dis is False:
         return []
     return [tuple(o) for o in dis]
+
+
+def _touching(grid, default, offs, h, w):
+    if grid is None:
+        return False
+    for y in range(h):
+        for x in range(w):
+            if grid[y][x] != default:
+                for dy, dx in offs:
+                    yy, xx = y + dy, x + dx
+                    if 0 <= yy < h and 0 <= xx < w and grid[yy][xx] != default:
+                        return True
+    return False
 
 
 def _gen_initial_grid(rng, h, w, choice, default, dis, symmetry):
@@ -311,6 +340,15 @@ def generate(rng, tier, index):
         sc["failure_first"] = {"kind": "rejected_call", "form": r.choice(["both", "both", "neither"])}
     elif q < 0.24:
         sc["failure_first"] = {"kind": "solver_raises", "at": r.choice([0, 1, 1, 2, 3, 5])}
+    # the same builder OBJECT at two positions of the pattern (a copy of one leaf is appended and equal leaves
+    # are built once), and the (initial problem, neighbour generator) pair kept and walked again
+    if sc["pattern"][0] in ("tuple", "list") and r.random() < 0.12:
+        leaves = [i for i in sc["pattern"][1] if i[0] in ("array", "seg", "choice")]
+        if leaves:
+            sc["pattern"] = [sc["pattern"][0], sc["pattern"][1] + [copy.deepcopy(r.choice(leaves))]]
+            sc["share_equal_leaves"] = r.random() < 0.7
+    if sc["reuse_pattern"] and not sc["use_builder_pattern"] and sc["det_seed"] is not None and r.random() < 0.3:
+        sc["share_pair"] = True
     return sc
 
 
@@ -357,11 +395,6 @@ def _valid_pattern(p):
                         return False
                     if opts["symmetry"] and (g[y][x] != default) != (g[h - 1 - y][w - 1 - x] != default):
                         return False
-                    if g[y][x] != default:
-                        for dy, dx in offs:
-                            yy, xx = y + dy, x + dx
-                            if 0 <= yy < h and 0 <= xx < w and g[yy][xx] != default:
-                                return False
         return True
     if t == "seg":
         _, h, w, mn, mx, ms, xs, allow, init = p
@@ -932,8 +965,19 @@ def flatten(v, out=None):
     return out
 
 
-def build_pattern(p, G):
-    """JSON pattern -> objects of the generator package (fresh builders every time)."""
+def build_pattern(p, G, memo=None):
+    """JSON pattern -> objects of the generator package (fresh builders every time; with a memo, leaves
+    with equal descriptions are one and the same builder object)."""
+    if memo is not None and p[0] in ("array", "seg", "choice"):
+        key = json.dumps(p, sort_keys=True)
+        if key not in memo:
+            memo[key] = build_pattern(p, G)
+        else:
+            memo["__shared__"] = True
+        return memo[key]
+    if memo is not None and p[0] in ("list", "tuple"):
+        items = [build_pattern(i, G, memo) for i in p[1]]
+        return items if p[0] == "list" else tuple(items)
     t = p[0]
     if t == "const":
         v = p[1]
@@ -1000,7 +1044,21 @@ def check_value(p, cur, nxt, path, out):
                         out.append(("C19/symmetry-broken", f"{path}: cell ({y},{x}) is {nxt[y][x]!r} but its mirror ({h-1-y},{w-1-x}) is {nxt[h-1-y][w-1-x]!r} (default {default!r})"))
                         return
         offs = _offsets(opts["disallow_adjacent"])
-        if offs and not opts["use_move"]:
+        if offs and not opts["use_move"] and _touching(opts["initial"], default, offs, h, w):
+            # the start grid itself holds touching clues (legal input): the grid as a whole cannot be required to
+            # be free of them, but every update here is value-setting and must not write a non-default value
+            # next to a non-default cell
+            if cur is not None:
+                for y in range(h):
+                    for x in range(w):
+                        if nxt[y][x] == default or nxt[y][x] == cur[y][x]:
+                            continue
+                        for dy, dx in offs:
+                            yy, xx = y + dy, x + dx
+                            if 0 <= yy < h and 0 <= xx < w and nxt[yy][xx] != default:
+                                out.append(("C19/adjacency-broken", f"{path}: the update wrote {nxt[y][x]!r} into ({y},{x}) next to the non-default cell ({yy},{xx}) (offset ({dy},{dx}))"))
+                                return
+        elif offs and not opts["use_move"]:
             for y in range(h):
                 for x in range(w):
                     if nxt[y][x] == default:
@@ -1191,7 +1249,7 @@ class _InjectedFailure(Exception):
     """The solver callback fails (stands for a backend timeout / crash in the user's solver function)."""
 
 
-def exec_gen(sc, variant, res, check=True, retain=True, shared=None, fail_at=None, restore=True, rejected_first=None):
+def exec_gen(sc, variant, res, check=True, retain=True, shared=None, fail_at=None, restore=True, rejected_first=None, use_pair=False):
     """One execution of generate_problem under interference `variant`; returns a _Trace.
 
     retain=False: the harness keeps no reference to any problem object it is shown (only value
@@ -1376,7 +1434,10 @@ def exec_gen(sc, variant, res, check=True, retain=True, shared=None, fail_at=Non
                 pattern = shared["pattern"]
                 res.hit("perturb:second_execution_reuses_the_pattern_objects")
             else:
-                pattern = build_pattern(pat_json, G)
+                memo = {} if sc.get("share_equal_leaves") else None
+                pattern = build_pattern(pat_json, G, memo)
+                if memo and memo.get("__shared__"):
+                    res.hit("perturb:one_builder_object_at_two_positions")
                 if shared is not None:
                     shared["pattern"] = pattern
             if rejected_first is not None:
@@ -1402,14 +1463,21 @@ def exec_gen(sc, variant, res, check=True, retain=True, shared=None, fail_at=Non
                 # generate_problem builds the neighbour generator itself; the initial problem is
                 # recomputed here only for the fake solver's clue counter (same PRNG state restored)
                 st = (core.snapshot_module_state(srandom), core.snapshot_module_state(dr), pyrandom.getstate())
-                init0, _ = G.build_neighbor_generator(build_pattern(pat_json, G))
+                init0, _ = G.build_neighbor_generator(build_pattern(pat_json, G, {} if sc.get("share_equal_leaves") else None))
                 core.restore_module_state(srandom, st[0])
                 core.restore_module_state(dr, st[1])
                 pyrandom.setstate(st[2])
                 initial_flat = flatten(init0)
                 result = G.generate_problem(fake_solver, builder_pattern=pattern, **kwargs)
             else:
-                initial, gen = G.build_neighbor_generator(pattern)
+                if use_pair and shared is not None and "pair" in shared:
+                    # the caller kept (initial problem, neighbour generator) from an earlier walk and walks again
+                    initial, gen = shared["pair"]
+                    res.hit("perturb:initial_and_generator_pair_reused_across_walks")
+                else:
+                    initial, gen = G.build_neighbor_generator(pattern)
+                    if shared is not None:
+                        shared["pair"] = (initial, gen)
                 initial_flat = flatten(initial)
                 note(initial, "initial problem")
                 if check:
@@ -1574,6 +1642,25 @@ def _run_gen(sc, res, variants=None):
         res.inconclusive = True
         res.hit("inconclusive:draw_budget")
         return
+    if sc.get("share_pair") and shared is not None and "pair" in shared:
+        # two more walks with the pair kept from execution A (no builder is consulted for a start value again,
+        # so they are compared with each other, not with A)
+        n_events = len(res.events)
+        c = exec_gen(sc, 1, res, retain=False, shared=shared, use_pair=True)
+        d = exec_gen(sc, 0, res, retain=False, shared=shared, use_pair=True)
+        del res.events[n_events:]
+        res.log("C", c.seq, c.result, "D", d.seq, d.result)
+        for k, m in (c.violations + d.violations)[:3]:
+            res.violate(k, m + " [walks with the kept pair]")
+        if "DrawBudgetExceeded" in (c.exception or "") or "DrawBudgetExceeded" in (d.exception or ""):
+            res.inconclusive = True
+            res.hit("inconclusive:draw_budget")
+        elif c.seq != d.seq or c.result != d.result:
+            i = next((i for i, (x, y) in enumerate(zip(c.seq, d.seq)) if x != y), min(len(c.seq), len(d.seq)))
+            res.violate(
+                "C19/candidate-sequence-differs",
+                f"same deterministic seed {sc['det_seed']}, the same (initial problem, neighbour generator) pair walked twice ({_interf(sc, 1)} vs {_interf(sc, 0)}): candidate #{i} differs ({len(c.seq)} vs {len(d.seq)} candidates; results {c.result} vs {d.result})",
+            )
     if a.seq != b.seq:
         i = next((i for i, (x, y) in enumerate(zip(a.seq, b.seq)) if x != y), min(len(a.seq), len(b.seq)))
         pa = a.calls[i]["problem"] if i < len(a.calls) else None
